@@ -767,6 +767,12 @@ func (progBldr *ProgBuilder) Eq(ctx *context) {
 	case isDS:
 		ctx.isLeafListFilter = true
 		ds := d2.DatumSlice("leaflistfilter")
+		if isBool(d1) && len(ds) > 0 {
+			// Compared with a boolean the set of values is converted
+			// with boolean(), not value by value: it is not empty
+			ctx.pushDatum(NewBoolDatum(d1.Boolean("eq(datumslice,bool)")))
+			return
+		}
 		for _, datum := range ds {
 			// take advantage of the Eq function and use it recursively
 			ctx.pushDatum(datum)
